@@ -85,6 +85,24 @@ Theorem C02_se_posterior_covariance_psd n m dim (chol : 'M[R]_n -> 'M[R]_n) xs x
 Proof. move=> _ Ha Hn Kker K_eval Kss K. exact: (@SE_posterior_cov_psd n m dim chol xs xe ls lsq lcu alpha noise Ha Hn). Qed.
 Print Assumptions C02_se_posterior_covariance_psd.
 
+(* pointwise posterior variance (compute_variance_of_points): with K_x_x_array = the generated pairwise covariance(points_to_sample, points_to_sample),
+   the value the code floors at min_var is the diagonal of the posterior covariance and is NON-NEGATIVE in exact arithmetic - the floor
+   MINIMUM_KRIGING_VARIANCE only guards against rounding *)
+Theorem C02_se_posterior_variance_nonneg n m dim (chol : 'M[R]_n -> 'M[R]_n) xs xe ls lsq lcu alpha (noise : 'cV[R]_n) (min_var : R) :
+  (forall k, Rlt 0 (ls k)) -> Rle 0 alpha -> (forall i, Rle 0 (noise i 0)) ->
+  let Kker : 'M[R]_n := \matrix_(i, j) SquareExponential.kernel_matrix_sym dim xs (fun _ => 0%Re) ls lsq lcu alpha i j in
+  let K_eval : 'M[R]_(m, n) := \matrix_(i, j) SquareExponential.kernel_matrix_cross dim xs xe ls lsq lcu alpha i j in
+  let Kss : 'M[R]_m := \matrix_(i, j) SquareExponential.kernel_matrix_sym dim xe (fun _ => 0%Re) ls lsq lcu alpha i j in
+  let kxx : 'cV[R]_m := \col_i SquareExponential.covariance dim xe xe ls lsq lcu alpha i in
+  let K := GPNoise.kernel_matrix Kker noise in
+  chol K *m (chol K)^T = K -> chol K \in unitmx ->
+  let v := kxx - diagcol (K_eval *m invmx K *m K_eval^T) in
+  GPNoise.var_tri chol Kker noise K_eval kxx min_var = floor_at min_var v /\
+  (forall i, v i 0 = GPNoise.cov chol Kker noise K_eval Kss i i) /\
+  (forall i, Rle 0 (v i 0)).
+Proof. move=> _ Ha Hn Kker K_eval Kss kxx K. exact: (@SE_posterior_variance n m dim chol xs xe ls lsq lcu alpha noise min_var Ha Hn). Qed.
+Print Assumptions C02_se_posterior_variance_nonneg.
+
 (* both square blocks built by the other entry point (points_to_sample = the same point set: the clamped-expansion path) *)
 Theorem C02_se_posterior_covariance_psd_cross_blocks n m dim (chol : 'M[R]_n -> 'M[R]_n) xs xe ls lsq lcu alpha (noise : 'cV[R]_n) :
   (forall k, Rlt 0 (ls k)) -> Rle 0 alpha -> (forall i, Rle 0 (noise i 0)) ->
